@@ -36,7 +36,7 @@ PROPS = {
         ],
     },
     "C03": {
-        "theorems": ["SV.Props.C03.source_comparator_is_the_models", "SV.Props.C03.source_comparator_reads", "SV.Props.C03.greedy_on_every_reachable_pool", "SV.Props.C03.ppu_is_floor", "SV.Props.C03.comparator_strict_total", "SV.Props.C03.pops_the_best", "SV.Props.C03.order_independent", "SV.Props.C03.stricter_limits_give_prefix", "SV.Props.C03.equals_documented_greedy_procedure", "SV.Props.C03.container_heap_refines_extract_best", "SV.Props.C03.repeatable", "SV.Props.C03.legacy_ppu_truncates"],
+        "theorems": ["SV.Props.C03.source_price_per_unit_is_floor_saturated", "SV.Props.C03.source_comparator_is_the_models", "SV.Props.C03.source_comparator_reads", "SV.Props.C03.greedy_on_every_reachable_pool", "SV.Props.C03.ppu_is_floor", "SV.Props.C03.comparator_strict_total", "SV.Props.C03.pops_the_best", "SV.Props.C03.order_independent", "SV.Props.C03.stricter_limits_give_prefix", "SV.Props.C03.equals_documented_greedy_procedure", "SV.Props.C03.container_heap_refines_extract_best", "SV.Props.C03.repeatable", "SV.Props.C03.legacy_ppu_truncates"],
         "modules": ["SV.Props.C03"],
         "runs": [{"component": "txcache", "thorough_seeds": 3, "compare_kinds": ["selb"]}],
         "rule": "random add/rm/clear/sel histories over a small transaction alphabet (hash determines content) under boundary-biased configurations; distinct = distinct (operation kind, canonical output incl. full API dump) pairs observed on the implementation",
